@@ -5,7 +5,7 @@ from fractions import Fraction as Fr
 import engine
 import streams
 import train
-from common import parse_q, sub_seed
+from common import parse_q, sub_seed, size
 
 THEOREMS = ["LNN.C18_facts_preserved",
             "LNN.C18_facts_preserved_epochs",
@@ -67,7 +67,7 @@ def run(rep, tier, seed):
     if "crash" not in w and w["contradiction_loss"] == 0 and w["uncertainty_loss"] < 0:
         rep.enable_known("D15")
         rep.violation("loss-alpha-gap", {"witness": w}, {"witness": w})       # matched by the listed finding: counted, not reported
-    n = 150 if tier == "quick" else 3000
+    n = size(tier, 150, 3000)
     cases = [c for c in (train.gen_train_case(random.Random(sub_seed(seed, "c18", k)), adam=(k % 5 == 4)) for k in range(n)) if c]
     recs = engine.run_cases("train", "run_train", cases, chunksize=2)
     for r, c in zip(recs, cases):
@@ -98,7 +98,7 @@ def run(rep, tier, seed):
                     "optimizer": "Adam" if case.get("adam") else "scripted"}, limit=2)
     # projection alone, incl. requested negative weights (inference with negative weights is not modelled)
     pcases = []
-    for k in range(10 if tier == "quick" else 100):
+    for k in range(size(tier, 10, 100)):
         rng = random.Random(sub_seed(seed, "c18proj", k))
         pcases.append({"neurons": [{"kind": rng.choice(["and", "or"]), "negw": rng.random() < 0.4,
                                     "b": Fr(rng.randint(-16, 16), 4), "w": [Fr(rng.randint(-16, 16), 4) for _ in range(rng.randint(2, 4))]}
